@@ -64,205 +64,12 @@ def g_reply(r):
             'disconnect': 'RDisconnect', 'sockerr': 'RSockErr'}[k]
 
 
-def name_id(n):
-    return None if n is None else (NAMES.index(n) if n in NAMES else 99)
-
-
-def optcode(n):
-    i = name_id(n)
-    return 0 if i is None else i + 1
-
-
-def code_frame(f):
-    kind = {'options': 0, 'startup': 1, 'auth_response': 2, 'credentials': 3}.get(f['kind'])
-    if kind is None:
-        return 4095                        # unparsed / unknown message: can never match the model
-    return (1 + kind + 4 * (int(f['compressed']) + 2 * int(f['checksummed']) + 4 * int(f['seg_compressed']))
-            + 32 * optcode(f['startup_compression'] if f['kind'] == 'startup' else None))
-
-
-def code_frames(fs):
-    c = 0
-    for f in reversed(fs):
-        c = code_frame(f) + 4096 * c
-    return c
-
-
-def code_state(o):
-    return (min(o['pending'], 1) + 2 * ERR_CODE[o['last_error']]
-            + 32 * (int(o['closed']) + 2 * int(o['defunct']) + 4 * int(o['connected']) + 8 * int(o['seg_lz4']) + 16 * int(o['checksumming']))
-            + 1024 * optcode(o['decompressor']) + 131072 * optcode(o['compressor']))
-
-
-def g_case(cfg, local, replies, obs):
-    """same packing as code_state / code_frames in coq/Model/Handshake.v"""
-    codes = []
-    for o in obs:
-        codes += [code_state(o) if o['pending'] <= 1 else -1, code_frames(o['sent'])]
+def g_case(cfg, local, replies, codes):
+    """codes: same packing as code_state / code_frames in coq/Model/Handshake.v (computed in vf.hs_cases.summarize)"""
     return 'check_trace %s [%s] %s' % (g_cfg(cfg, local), '; '.join(g_reply(r) for r in replies), zlist(codes))
 
 
-# ------------------------------------------------------------------------------------------ the statement, on the implementation
-def oracle(cfg, local, replies, obs):
-    """-> list of (key, what, theorem) : failures of the PROPERTY (not of the model) on the observed behaviour."""
-    out = []
-    v = cfg['version']
-    cs = v in CS_VERSIONS
-    localn = [NAMES[i] for i in local]
-    remoten = [NAMES[i] for i in replies[0][1]] if replies and replies[0][0] == 'supported' else None
-    ready_seen = accept_seen = False
-    last_sent = 'options'
-
-    def frames_check(o, allowed_compressed):
-        for f in o['sent']:
-            if (f['compressed'] or f['seg_compressed']) and not allowed_compressed:
-                out.append(('compressed-before-accept.%s' % f['kind'], 'a %s frame left compressed before READY/AUTHENTICATE arrived' % f['kind'],
-                            'C47_compress_only_after_accept'))
-            if f['checksummed'] and not cs:
-                out.append(('checksummed-frame.v%d' % v, 'a %s frame was sent in a checksummed segment on protocol v%d' % (f['kind'], v),
-                            'C47_checksumming_iff_v5'))
-            if f['kind'] == 'startup' and f['startup_compression'] is not None:
-                n = f['startup_compression']
-                if n not in localn or remoten is None or n not in remoten:
-                    out.append(('compression-not-both.startup', 'STARTUP announced compression %r; local %r, remote %r' % (n, localn, remoten),
-                                'C47_compression_both_sides'))
-
-    frames_check(obs[0], False)
-    for i, r in enumerate(replies):
-        prev, o = obs[i], obs[i + 1]
-        k = r[0]
-        if k in ('ready', 'auth_success'):
-            ready_seen = True
-        if k in ('ready', 'authenticate'):
-            accept_seen = True
-        # reported ready only after READY / AUTH_SUCCESS
-        became_ready = o['reported_ready'] and not prev['reported_ready']
-        if became_ready and not ready_seen:
-            out.append(('ready-without-ready.%s' % k, 'connection reported ready (connected_event set, last_error None) after %s although '
-                        'neither READY nor AUTH_SUCCESS was received' % k, 'C47_ready_only_after'))
-        # failures
-        live = (not prev['connected']) and prev['last_error'] == 'none' and prev['pending'] == 1
-        if o['last_error'] == 'auth_failed' and prev['last_error'] != 'auth_failed':
-            seen = replies[:i + 1]
-            if not (any(x[0] == 'authenticate' for x in seen) and (cfg['auth'] == 'none' or any(x[0] == 'error' for x in seen))):
-                out.append(('auth-failed-without-cause.%s' % k, 'AuthenticationFailed reported after %s without an authentication cause' % k,
-                            'C47_error_kinds'))
-        must_auth = live and ((k == 'authenticate' and cfg['auth'] == 'none' and last_sent in ('startup', 'credentials'))
-                              or (k == 'error' and r[1] == 'auth' and last_sent in ('auth_response', 'credentials')))
-        if must_auth and o['last_error'] != 'auth_failed':
-            out.append(('auth-failure-not-auth-error.%s' % k, 'authentication failure (%s after %s) surfaced as %s' % (k, last_sent, o['last_error']),
-                        'C47_error_kinds'))
-        if o['last_error'] != 'none':
-            if o['reported_ready'] or not o['connected']:
-                out.append(('failure-not-reported.%s' % k, 'failure %s but connected=%s reported_ready=%s' % (o['last_error'], o['connected'], o['reported_ready']),
-                            'C47_error_kinds'))
-        if prev['last_error'] != 'none' and o['last_error'] != prev['last_error']:
-            out.append(('failure-overwritten.%s' % k, 'last_error changed from %s to %s' % (prev['last_error'], o['last_error']), 'C47_error_kinds'))
-        if live and k not in ('supported', 'ready', 'authenticate', 'challenge', 'auth_success') and not o['connected']:
-            out.append(('failure-hangs.%s' % k, '%s during the handshake left the connect attempt waiting (no error, not connected)' % k, 'C47_error_kinds'))
-        # compression
-        frames_check(o, accept_seen)
-        for attr in ('compressor', 'decompressor'):
-            n = o[attr]
-            if n is not None and (n not in localn or remoten is None or n not in remoten):
-                out.append(('compression-not-both.%s' % attr, '%s=%r; local %r, remote %r' % (attr, n, localn, remoten), 'C47_compression_both_sides'))
-        # checksumming
-        if o['checksumming'] and not cs:
-            out.append(('checksumming-on.v%d' % v, 'checksumming enabled on protocol v%d' % v, 'C47_checksumming_iff_v5'))
-        if became_ready and ready_seen and o['checksumming'] != cs:
-            out.append(('checksumming-off.v%d' % v, 'ready connection on protocol v%d has checksumming=%s' % (v, o['checksumming']), 'C47_checksumming_iff_v5'))
-        for f in o['sent']:
-            last_sent = f['kind']
-    return out
-
-
-# ------------------------------------------------------------------------------------------ case generation
-SUBSETS3 = [[], [0], [1], [2], [0, 1], [1, 0], [0, 2], [1, 2], [0, 1, 2]]
-LATER = [['supported', [0]], ['ready', None], ['authenticate', None], ['challenge', 'good'], ['challenge', 'bad'], ['auth_success', None],
-         ['error', 'auth'], ['error', 'server'], ['error', 'protocol'], ['unexpected', None], ['disconnect', None], ['sockerr', None]]
-FIRST = [['supported', s] for s in SUBSETS3] + LATER[1:]
-AFTER_TERMINAL = [['ready', None], ['auth_success', None], ['disconnect', None], ['sockerr', None]]
-
-
-def all_configs(tier):
-    auths = ['none', 'sasl', 'dict']
-    comps = [True, False, 'lz4', 'snappy', 'zstd']
-    locals_ = [[], [0], [1], [0, 1], [1, 0]]
-    versions = [1, 2, 3, 4, 5, 6, 65, 66]
-    out = []
-    for fl in ('asyncio', 'twisted'):
-        for a, c, l, v in itertools.product(auths, comps, locals_, versions):
-            out.append(({'flavour': fl, 'auth': a, 'compression': c, 'version': v}, l))
-    return out
-
-
-def enumerate_tree(H, cfg, local, maxlen=5):
-    """all reply sequences of length <= maxlen, extended until the connect attempt is decided (connected_event set) and then by
-    one more reply from AFTER_TERMINAL; returns the maximal ones with their observation traces"""
-    leaves = []
-
-    def rec(prefix):
-        obs = H.run_case(cfg, local, prefix)
-        terminal = obs[-1]['connected']
-        if len(prefix) >= maxlen:
-            leaves.append((prefix, obs))
-            return
-        if terminal:
-            if len(prefix) >= 1 and obs[-2]['connected']:
-                leaves.append((prefix, obs))
-                return
-            for r in AFTER_TERMINAL:
-                rec(prefix + [r])
-            return
-        for r in (FIRST if not prefix else LATER):
-            rec(prefix + [r])
-    rec([])
-    return leaves
-
-
-def random_walk(H, rng, cfg, local, n=5):
-    """a reply sequence biased toward legal continuations (by the last frame the client sent), with illegal ones mixed in"""
-    replies = []
-    phase = 'options'
-    for i in range(n):
-        x = rng.random()
-        if x < 0.55:
-            if phase == 'options':
-                r = ['supported', rng.choice(SUBSETS3)]
-            elif phase == 'startup':
-                r = rng.choice([['ready', None], ['authenticate', None], ['authenticate', None], ['error', 'server']])
-            elif phase == 'auth':
-                r = rng.choice([['challenge', 'good'], ['auth_success', None], ['error', 'auth'], ['ready', None], ['authenticate', None]])
-            else:
-                r = rng.choice(LATER)
-        else:
-            r = rng.choice(FIRST if i == 0 else LATER)
-        replies.append(r)
-        if r[0] == 'supported' and phase == 'options':
-            phase = 'startup'
-        elif r[0] == 'authenticate' and phase == 'startup':
-            phase = 'auth'
-        elif r[0] in ('ready', 'auth_success', 'disconnect', 'sockerr', 'error', 'unexpected'):
-            phase = 'done'
-    return replies
-
-
-def _work(args):
-    """thorough tier worker: the whole tree of one configuration"""
-    cfg, local = args
-    from vf import hs_impl as H
-    with H.patched_reactors():
-        leaves = enumerate_tree(H, cfg, local)
-    H.shutdown()
-    res = []
-    for replies, obs in leaves:
-        res.append((replies, obs, oracle(cfg, local, replies, obs)))
-    return cfg, local, res
-
-
-def nontrivial(replies, obs):
-    """the handshake got past STARTUP: at least one reply was processed while a STARTUP/auth request was outstanding"""
-    return len(obs) > 2 and obs[1]['pending'] == 1 and not obs[1]['connected']
+from vf.hs_cases import oracle, enumerate_tree, random_walk, _work, all_configs, summarize
 
 
 def load_corpus():
@@ -289,7 +96,7 @@ def run(ctx):
         ctx.coqchk('Props/C47.v')
     from vf import hs_impl as H
 
-    results = []           # (cfg, local, replies, obs, oracle findings)
+    results = []           # compact records (vf.hs_cases.summarize)
     try:
         with H.patched_reactors():
             # corpus first (both flavours), then the standard flows
@@ -303,23 +110,21 @@ def run(ctx):
                 directed.append(({'flavour': fl, 'auth': 'dict', 'compression': 'snappy', 'version': 1}, [0, 1],
                                  [['supported', [1]], ['authenticate', None], ['ready', None]]))
             for cfg, local, replies in directed:
-                obs = H.run_case(cfg, local, replies)
-                results.append((cfg, local, replies, obs, oracle(cfg, local, replies, obs)))
+                results.append(summarize(cfg, local, replies, H.run_case(cfg, local, replies)))
                 ctx.count('source', 'corpus+directed')
             configs = all_configs(ctx.tier)
             if ctx.tier == 'quick':
                 ctx.exhaustive = False
-                chosen = [configs[i] for i in sorted(ctx.rng.sample(range(len(configs)), 100))]
+                chosen = [configs[i] for i in sorted(ctx.rng.sample(range(len(configs)), 80))]
                 for cfg, local in chosen:
-                    for _ in range(30):
+                    for _ in range(25):
                         replies = random_walk(H, ctx.rng, cfg, local, ctx.rng.choice([3, 4, 5, 5]))
-                        obs = H.run_case(cfg, local, replies)
-                        results.append((cfg, local, replies, obs, oracle(cfg, local, replies, obs)))
+                        results.append(summarize(cfg, local, replies, H.run_case(cfg, local, replies)))
                         ctx.count('source', 'random-walk')
                 # two complete trees
                 for cfg, local in [chosen[0], chosen[-1]]:
                     for replies, obs in enumerate_tree(H, cfg, local):
-                        results.append((cfg, local, replies, obs, oracle(cfg, local, replies, obs)))
+                        results.append(summarize(cfg, local, replies, obs))
                         ctx.count('source', 'full-tree')
             # malformed SUPPORTED bodies (evidence only; DESIGN 4.0): must never end up ready
             from cassandra.protocol import SupportedMessage
@@ -337,9 +142,8 @@ def run(ctx):
             import multiprocessing
             mp = multiprocessing.get_context('fork')
             with mp.Pool(core.JOBS) as pool:
-                for cfg, local, res in pool.imap(_work, all_configs(ctx.tier), chunksize=4):
-                    for replies, obs, found in res:
-                        results.append((cfg, local, replies, obs, found))
+                for res in pool.imap(_work, all_configs(ctx.tier), chunksize=4):
+                    results.extend(res)
                     ctx.count('source', 'full-tree', len(res))
     finally:
         H.shutdown()
@@ -348,19 +152,16 @@ def run(ctx):
                 '{True, False, lz4, snappy, zstd} x local codecs {[], [lz4], [snappy], [lz4,snappy], [snappy,lz4]} x versions {1,2,3,4,5,6,65,66}; '
                 'replies from {SUPPORTED(9 option lists), READY, AUTHENTICATE, AUTH_CHALLENGE good/bad, AUTH_SUCCESS, ERROR bad-credentials/server/'
                 'protocol, RESULT, disconnect, socket error}; thorough: every sequence of length <= 5 up to the reply that decides the connect attempt, '
-                'plus every extension of a decided attempt by READY/AUTH_SUCCESS/disconnect/socket error; quick: 100 random configurations x 30 '
+                'plus every extension of a decided attempt by READY/AUTH_SUCCESS/disconnect/socket error; quick: 80 random configurations x 25 '
                 'model-guided random walks + 2 complete trees; non-trivial = distinct (configuration, sequence) whose handshake got past STARTUP')
     cases, meta = [], []
     seen_viol = set()
-    for cfg, local, replies, obs, found in results:
+    for rec in results:
+        cfg, local, replies, found = rec['cfg'], rec['local'], rec['replies'], rec['found']
         canon = [cfg['flavour'], cfg['auth'], str(cfg['compression']), cfg['version'], local, replies]
-        ctx.case(canon, nontrivial=nontrivial(replies, obs),
-                 sample={'cfg': cfg, 'local': local, 'replies': replies,
-                         'final': {k: v for k, v in obs[-1].items() if k != 'sent'},
-                         'sent': [[f['kind'], f['compressed'], f['checksummed']] for o in obs for f in o['sent']]}
-                 if len(replies) >= 4 and obs[-1]['reported_ready'] else None)
+        ctx.case(canon, nontrivial=rec['nontrivial'], sample=rec['sample'])
         ctx.count('length', len(replies))
-        ctx.count('outcome', 'ready' if obs[-1]['reported_ready'] else obs[-1]['last_error'] if obs[-1]['last_error'] != 'none' else 'pending')
+        ctx.count('outcome', rec['outcome'])
         ctx.count('auth', cfg['auth'])
         ctx.count('version', cfg['version'])
         for r in replies:
@@ -372,11 +173,11 @@ def run(ctx):
             seen_viol.add(k2)
             ctx.violation(k2, '%s reactor: %s (replies %r, config %r, local codecs %r)' % (cfg['flavour'], what, replies, cfg, local),
                           case={'cfg': cfg, 'local': local, 'replies': replies}, expected='property C47 (%s)' % thm,
-                          actual=[{k: v for k, v in o.items()} for o in obs], theorem=thm, kind='history')
-        cases.append(g_case(cfg, local, replies, obs))
+                          actual=rec['obs'], theorem=thm, kind='history')
+        cases.append(g_case(cfg, local, replies, rec['codes']))
         meta.append((cfg, local, replies, bool(found)))
     try:
-        bad = ctx.coq_filter(['Handshake'], '(fun b : bool => b)', cases, shard=600)
+        bad = ctx.coq_filter(['Handshake'], '(fun b : bool => b)', cases, shard=600 if ctx.tier == 'quick' else 1500, timeout=1200)
     except RuntimeError as e:
         ctx.proof_broken.append(('correspondence:Handshake', str(e)[-800:]))
         bad = []
@@ -388,7 +189,7 @@ def run(ctx):
             continue           # the property failure itself is already reported for this case
         shown += 1
         ctx.disagreement('model-vs-impl', 'handshake model differs from the implementation: config %r local %r replies %r' % (cfg, local, replies),
-                         case={'cfg': cfg, 'local': local, 'replies': replies}, actual=results[i][3])
+                         case={'cfg': cfg, 'local': local, 'replies': replies}, actual=results[i]['codes'])
     ctx.trust('harness lib/vf/hs_impl.py: no-socket subclasses of AsyncioConnection/TwistedConnection (real close(), real process_msg/'
               'send_msg/defunct), toy codecs patched into locally_supported_compressions / segment_codec_lz4, frame+segment parser',
               'reply objects are built by the harness (decoding is C04), PlainTextAuthenticator is the SASL-style authenticator')
